@@ -16,8 +16,9 @@ CAP = 20000
 
 
 class _Ctx:
-    def __init__(self, classify, unroll, inline_closures, follow=None, irrefutable=None):
+    def __init__(self, classify, unroll, inline_closures, follow=None, irrefutable=None, branch_label=None):
         self.irrefutable = irrefutable or (lambda n: False)
+        self.branch_label = branch_label  # optional: If node -> (then_event, else_event)
         self.classify = classify
         self.unroll = unroll
         self.inline_closures = inline_closures
@@ -94,6 +95,13 @@ def _p(e, cx):
         if cx.irrefutable(e):
             return _own(e, _seq(c, set(t)), cx)
         f = _p(e["else"], cx) if "else" in e else EMPTY
+        bl = cx.branch_label(e) if cx.branch_label else None
+        if bl:
+            tl, fl = bl
+            if tl:
+                t = _seq({((tl,), "fall")}, t)
+            if fl:
+                f = _seq({((fl,), "fall")}, f)
         return _own(e, _seq(c, set(t) | set(f)), cx)
     if k == "Match":
         s = _p(e["scrut"], cx)
@@ -172,8 +180,8 @@ def _own(e, cur, cx):
     return {(ev + t, st) if st == "fall" else (ev, st) for ev, st in cur}
 
 
-def paths(expr, classify, unroll=1, inline_closures=True, irrefutable=None):
-    cx = _Ctx(classify, unroll, inline_closures, irrefutable=irrefutable)
+def paths(expr, classify, unroll=1, inline_closures=True, irrefutable=None, branch_label=None):
+    cx = _Ctx(classify, unroll, inline_closures, irrefutable=irrefutable, branch_label=branch_label)
     return _p(expr, cx)
 
 
